@@ -336,7 +336,7 @@ func RAOpts(r *rand.Rand, mac refdec.MAC) []refdec.NDPOpt {
 		for i := 2; i < int(pl)/8; i++ {
 			a[i] = byte(r.Intn(256))
 		}
-		o = append(o, refdec.OptRouteInfo(refdec.RouteInfo{Len: pl, Pref: pick(r, uint8(0), uint8(1), uint8(3)), Lifetime: r.Uint32(), Prefix: netip.AddrFrom16(a)}))
+		o = append(o, refdec.OptRouteInfo(refdec.RouteInfo{Len: pl, Pref: pick(r, uint8(0), uint8(1), uint8(3), uint8(0), uint8(1), uint8(3), uint8(2)), Lifetime: r.Uint32(), Prefix: netip.AddrFrom16(a)}))
 	}
 	if r.Intn(4) == 0 {
 		k := r.Intn(3)
